@@ -47,7 +47,7 @@ def main(ctx):
     cases = ctx.gen_exec(bindir, "c28", ctx.n(60, 800), inputs=ctx.replay_inputs())
     lim = int(os.environ.get("VERIF_BPE_LIMIT", "0"))   # debugging aid (mutation experiments): stratified subset
     if lim and len(cases) > lim:
-        cases = cases[::len(cases) // lim]
+        cases = cases[:8] + cases[8::max(1, (len(cases) - 8) // lim)]   # the corpus lines come first and are always kept
     ctx.correspond("bpe_merge/encode_piece", GROUP, REQ, cases, show="show", shard=ctx.n(12, 16),
                    fn_name="Bpe.ModelBpe.{bpe_new,encode_piece,bpe_merge}")
     if failed and not ctx.violations:
